@@ -5,6 +5,7 @@ package main
 import (
 	"fmt"
 	"os"
+	"strings"
 	"time"
 
 	"golang.org/x/sys/unix"
@@ -98,7 +99,14 @@ func main() {
 			ncase = *vlib.FlagN
 		}
 		for i := 0; i < ncase; i++ {
-			c := cfg{Net: []string{"udp", "udp6"}[i%2], Loops: []int{1, 4, 2}[i%3], RCap: 65536, WCap: 65536, ReusePort: true}
+			c := cfg{Net: []string{"udp", "udp6"}[i%2], Loops: []int{1, 4, 2}[i%3], RCap: []int{65536, 8192, 2048, 65536}[i%4], WCap: 65536, ReusePort: true}
+			if i%4 == 3 {
+				if ip, zone := linkLocal(); ip != nil {
+					c.LinkLocal = ip.String() + "%" + zone
+				} else if i == 3 {
+					res.Note("c08: no link-local IPv6 address on this machine: scoped UDP addresses not exercised")
+				}
+			}
 			n := runC08Case(c, res.Seed*1000403+uint64(i), r.Pick(1, 2, 5, 16), r.Pick(40, 120), keys)
 			res.Eval(n)
 			res.Checkpoint()
@@ -257,6 +265,10 @@ func collectPoolAlarms() {
 		return
 	}
 	for _, a := range vpoolbs.Alarms() {
+		if strings.HasPrefix(a, "double-put:") {
+			res.Violate("C12 in-situ byteslice.Put returns memory that is already in the pool", a, nil)
+			continue
+		}
 		res.Violate("C12 in-situ byteslice.Get aliases memory the framework still holds", a, nil)
 	}
 	for _, a := range vpoolrb.Alarms() {
